@@ -113,6 +113,25 @@ def check_units(res):
                 res.violation(f'unit equality {a!r} == {b!r}: model {mu._as_unit(a) == mu._as_unit(b)}, astropy {ra == rb}', case=(a, b))
 
 
+def check_equivalence(res):
+    """Unit.is_equivalent honours the equivalencies enabled process-wide (the model: an uninterpreted boolean); physical_type does not"""
+    names = sorted(n for n in mu._UNITS if n not in ('GHz', 'km', 's', 'm'))
+    for enabled in (False, True):
+        vprim.UF_MODEL = {'astropy_dimensionless_angles_enabled': {'entries': [], 'else': enabled}}
+        ctx = u.set_enabled_equivalencies(u.dimensionless_angles() if enabled else [])
+        with ctx:
+            for a in names:
+                for b in names:
+                    res.case(('is_equivalent', enabled, a, b))
+                    same_outcome(res, f'Unit({a!r}).is_equivalent({b!r}) with dimensionless_angles {"enabled" if enabled else "not enabled"}',
+                                 outcome(lambda: bool(mu._as_unit(a).is_equivalent(mu._as_unit(b)))), outcome(lambda: bool(runit(a).is_equivalent(runit(b)))),
+                                 bool, bool, (enabled, a, b))
+                pt = str(runit(a).physical_type)
+                if mu._as_unit(a).physical_type != 'unknown' and mu._as_unit(a).physical_type != pt:
+                    res.violation(f'physical_type of {a!r} under enabled={enabled}: model {mu._as_unit(a).physical_type!r}, astropy {pt!r}')
+    vprim.UF_MODEL = {}
+
+
 def runit(name):
     return u.Unit(name) if name else u.dimensionless_unscaled
 
@@ -232,6 +251,18 @@ def check_skycoord(res, rng, n):
                     same_outcome(res, f'Quantity({v!r}, {ua!r}).to_string(unit={ub!r}, precision={prec})',
                                  outcome(lambda: mu.Quantity(v, ua).to_string(unit=ub, precision=prec)),
                                  outcome(lambda: u.Quantity(v, u.Unit(ua)).to_string(unit=u.Unit(ub), precision=prec)), str, str, (v, ua, ub, prec))
+    # a reshaped scalar is a view: converting the view in place rescales the buffer the scalar still holds in its own unit
+    for ua in ANGLE_UNITS[:4]:
+        for ub in ANGLE_UNITS[:4]:
+            res.case(('view <<=', ua, ub))
+            v = rng.uniform(0.1, 9)
+            mq, rq = mu.Quantity(v, ua), u.Quantity(v, u.Unit(ua))
+            mv, rv = mq._np_atleast_1d(), np.atleast_1d(rq)
+            mv <<= ub
+            rv <<= u.Unit(ub)
+            same_outcome(res, f'value of a {ua} scalar after np.atleast_1d(scalar) <<= {ub}', ('ok', mq.value), ('ok', float(rq.value)), float, float, (v, ua, ub), 1e-13)
+            same_outcome(res, 'its unit', ('ok', mq.unit.name), ('ok', str(rq.unit)), str, str, (v, ua, ub))
+            same_outcome(res, 'value of the view', ('ok', float(np.asarray(mv.value).ravel()[0])), ('ok', float(rv.value[0])), float, float, (v, ua, ub), 1e-13)
     # vectors: shape predicates the validators rely on
     for shape in ((3,), (2, 3), (1,), (0,)):
         res.case(('shape', shape))
@@ -302,6 +333,7 @@ def main():
                  'the statements of A-WCS (inverse maps per (origin, mode), origin shift, frame of the world side) as properties of real WCS objects')
     try:
         check_units(res)
+        check_equivalence(res)
         check_quantities(res, rng, n)
         check_angle_texts(res, rng, n)
         check_skycoord(res, rng, max(3, n // 4))
